@@ -430,18 +430,24 @@ being served by the production in flight. -/
 def Pending (s : St) : Prop :=
   s.chan = true ∨ (s.txs = true ∧ ∀ f, s.flight = some f → f.viaBlock = false)
 
-/-- a production start is owed by `D` because of a pending notification. -/
+/-- a production start is owed by `D` because of a pending notification.  In flight: the block timer
+will be re-armed to at most `fin + block`, or — when the production in flight is shorter than the block
+interval — to exactly `start + block`.  At the `select` with the notification still in the channel:
+either a whole block interval is left (a block tick without transactions may come first and re-arm the
+timer), or the block timer is not ready yet, so the channel is read before time passes. -/
 def WakeDue (c : Cfg) (D : Nat) (s : St) : Prop :=
   Inv c s ∧
   match s.flight with
-  | some f => (s.chan = true ∨ (s.txs = true ∧ f.viaBlock = false)) ∧ f.fin + c.block ≤ D
-  | none => s.blockT ≤ D ∧ ((s.txs = true ∧ s.now ≤ D) ∨ (s.chan = true ∧ s.now + c.block ≤ D))
+  | some f => (s.chan = true ∨ (s.txs = true ∧ f.viaBlock = false)) ∧
+      (f.fin + c.block ≤ D ∨ (f.fin < f.start + c.block ∧ f.start + c.block ≤ D))
+  | none => s.blockT ≤ D ∧ ((s.txs = true ∧ s.now ≤ D) ∨
+      (s.chan = true ∧ (s.now + c.block ≤ D ∨ s.now < s.blockT)))
 
 theorem wake_now {c D s} (h : WakeDue c D s) : s.now ≤ D := by
   obtain ⟨hi, h⟩ := h
   unfold Inv at hi
   cases hf : s.flight with
-  | none => simp only [hf] at h; omega
+  | none => simp only [hf] at h hi; omega
   | some f => simp only [hf] at h hi; omega
 
 theorem wake_of_pending {c s} (hi : Inv c s) (hp : Pending s) :
@@ -454,14 +460,38 @@ theorem wake_of_pending {c s} (hi : Inv c s) (hp : Pending s) :
     simp only [hf] at hi ⊢
     refine ⟨by omega, ?_⟩
     rcases hp with hp | ⟨hp, _⟩
-    · exact Or.inr ⟨hp, by omega⟩
+    · exact Or.inr ⟨hp, Or.inl (by omega)⟩
     · exact Or.inl ⟨hp, by omega⟩
   | some f =>
     simp only
-    refine ⟨?_, by omega⟩
+    refine ⟨?_, Or.inl (by omega)⟩
     rcases hp with hp | ⟨hp, hv⟩
     · exact Or.inl hp
     · exact Or.inr ⟨hp, hv f hf⟩
+
+/-- the production in flight (if any) is shorter than the block interval: the owed production is
+due one block interval after `now`. -/
+theorem wake_of_pending_short {c s} (hi : Inv c s) (hp : Pending s)
+    (hs : ∀ f, s.flight = some f → f.fin < f.start + c.block) :
+    WakeDue c (s.now + c.block) s := by
+  refine ⟨hi, ?_⟩
+  unfold Inv at hi
+  cases hf : s.flight with
+  | none =>
+    simp only [hf] at hi ⊢
+    refine ⟨by omega, ?_⟩
+    rcases hp with hp | ⟨hp, _⟩
+    · exact Or.inr ⟨hp, Or.inl (Nat.le_refl _)⟩
+    · exact Or.inl ⟨hp, by omega⟩
+  | some f =>
+    simp only [hf] at hi ⊢
+    refine ⟨?_, Or.inr ⟨hs f hf, by omega⟩⟩
+    rcases hp with hp | ⟨hp, hv⟩
+    · exact Or.inl hp
+    · exact Or.inr ⟨hp, hv f hf⟩
+
+theorem remaining_lt {e i : Nat} (h : e < i) : remaining e i = i - e := by
+  unfold remaining; split <;> omega
 
 theorem wake_tr {c D s i s' o} (hB : 1 ≤ c.block) (hI : 1 ≤ c.idle)
     (h : WakeDue c D s) (t : Tr c s i s' o) (ho : o = []) : WakeDue c D s' := by
@@ -481,13 +511,21 @@ theorem wake_tr {c D s i s' o} (hB : 1 ≤ c.block) (hI : 1 ≤ c.idle)
   | wait p d f hf hlt => simpa [hf, advance] using h
   | finish p d f hf hle =>
     simp only [hf] at h hi
-    have h2 := remaining_le (s.now - f.start) c.block hB
     simp only [finish]
-    refine ⟨by omega, ?_⟩
-    rcases h.1 with hc | ⟨htx, hv⟩
-    · exact Or.inr ⟨hc, by omega⟩
-    · refine Or.inl ⟨?_, by omega⟩
-      simp [hv, htx]
+    rcases h.2 with hD | ⟨hsh, hD⟩
+    · have h2 := remaining_le (s.now - f.start) c.block hB
+      refine ⟨by omega, ?_⟩
+      rcases h.1 with hc | ⟨htx, hv⟩
+      · exact Or.inr ⟨hc, Or.inl (by omega)⟩
+      · refine Or.inl ⟨?_, by omega⟩
+        simp [hv, htx]
+    · have h2 : remaining (s.now - f.start) c.block = c.block - (s.now - f.start) :=
+        remaining_lt (by omega)
+      refine ⟨by omega, ?_⟩
+      rcases h.1 with hc | ⟨htx, hv⟩
+      · exact Or.inr ⟨hc, Or.inr (by omega)⟩
+      · refine Or.inl ⟨?_, by omega⟩
+        simp [hv, htx]
   | idle p d hf h1 h2 h3 =>
     simp only [hf] at h
     simp only [advance, hf]
@@ -502,11 +540,14 @@ theorem wake_tr {c D s i s' o} (hB : 1 ≤ c.block) (hI : 1 ≤ c.idle)
     simp only [hf] at h ⊢
     rcases h.2 with h4 | h4
     · rw [htx] at h4; exact absurd h4.1 (by simp)
-    · exact ⟨by omega, Or.inr h4⟩
+    · rcases h4.2 with h5 | h5
+      · exact ⟨by omega, Or.inr ⟨h4.1, Or.inl (by omega)⟩⟩
+      · omega
   | recv p d hf hch =>
     simp only [hf] at h ⊢
     refine ⟨h.1, Or.inl ⟨trivial, ?_⟩⟩
-    rcases h.2 with h4 | h4 <;> omega
+    have := h.1
+    rcases h.2 with h4 | ⟨_, h4 | h4⟩ <;> omega
 
 /-- while a production is in flight no other one starts before it has ended. -/
 theorem run_out_ge_fin (c : Cfg) : ∀ (ins : List In) (s : St) (f : Flight) (q : Nat),
